@@ -22,7 +22,7 @@ def probe_paths():
     names = ["a", "b", "ab"]
     ps = ["/"]
     for d in (1, 2, 3):
-        for c in itertools.product(names, repeat=d):
+        for c in itertools.product(names if d < 3 else names[:2], repeat=d):
             ps.append("/" + "/".join(c))
     ps += ["/a/", "/a/b/", "/abb", "/a/bb", "/ba", "/b/", "/aa", "/a/b/ab/a", "a", "b/a"]
     return [list(p) for p in sorted(set(ps))]
@@ -44,8 +44,10 @@ def random_scripts(rng, n, maxlen):
                 v = vals(rng.randint(1, 3) if rng.random() < 0.3 else k)
                 c = {f: (v[f] if rng.random() < 0.45 else EMPTY[f]) for f in FIELDS}
                 ops.append({"ev": "add", "p": list(rng.choice(sub)), "c": c})
-            elif r < 0.9:
+            elif r < 0.87:
                 ops.append({"ev": "del", "p": list(rng.choice(sub))})
+            elif r < 0.92:
+                ops.append({"ev": "reload"})
             else:
                 ops.append({"ev": "match", "path": list(rng.choice(sub)) + rng.choice([[], ["a"], ["/", "b"], ["b", "/"]])})
         out.append(ops)
@@ -71,13 +73,13 @@ def run(ctx):
     hists = ctx.generate(g1, workers=4)
     if ctx.thorough:
         # four operations, one set/unset pattern per run (the trie shape is what varies)
-        for m in (part_a, part_b):
+        for m in ((part_a, part_b)[ctx.seed % 2],):
             g = ctx.instance("G1b_PathRules_%d" % len(m), "PathRules",
                              "SPECIFICATION Spec\nINVARIANT Emit\nCHECK_DEADLOCK FALSE",
                              {"Prefixes": prefixes, "Masks": {m}, "Vals": V, "MaxOps": 4})
             hists += [h for h in ctx.generate(g, workers=4) if len(h) == 4]
     rng = random.Random(ctx.seed)
-    hists += random_scripts(rng, 6000 if ctx.thorough else 1000, 8)
+    hists += random_scripts(rng, 4000 if ctx.thorough else 600, 8)
     probe = probe_paths()
     script = os.path.join(ctx.out, "script.ndjson")
     if ctx.replay:
@@ -85,10 +87,13 @@ def run(ctx):
     else:
         with open(script, "w") as f:
             for i, h in enumerate(hists):
-                f.write(json.dumps({"ev": "reset", "probe": probe, "snapEvery": i % 4 == 0}) + "\n")
-                for op in h:
+                f.write(json.dumps({"ev": "reset", "probe": probe, "snapEvery": i % 8 == 0}) + "\n")
+                for k, op in enumerate(h):
+                    if i % 3 == 2 and k == len(h) - 1 and len(h) >= 2:
+                        f.write(json.dumps({"ev": "reload"}) + "\n")   # persisted and loaded again in between
                     f.write(json.dumps(op) + "\n")
-    binp = ctx.build("c23")
+    # VERIF_DRIVER_BIN: a driver built elsewhere (mutation testing against a private copy of the tree)
+    binp = os.environ.get("VERIF_DRIVER_BIN") or ctx.build("c23")
     trace = ctx.drive(binp, ["--script", script])
 
     def mutate(evs):
@@ -106,14 +111,15 @@ def run(ctx):
         adds = sum(1 for x in e if '"ev":"add"' in x)
         return adds >= 2 or (adds >= 1 and any('"ev":"del"' in x for x in e))
 
+    nev = sum(1 for _ in open(trace))
     ctx.judge("PathRulesTrace", trace, "trace_base.cfg",
               {"Probe": [tuple(p) for p in probe], "Prefixes": prefixes, "Masks": {full}, "Vals": V, "MaxOps": 0},
-              nontrivial=nontrivial, mutate=mutate, chunk_events=4000)
+              nontrivial=nontrivial, mutate=mutate, chunk_events=max(2000, nev // 8 + 1))
     ctx.rule = ("executions = every add/del history of length 1..3 over the location prefixes {/, /a, /a/b, /ab, /b} "
-                "with 2-3 set/unset field patterns (thorough: also all of length 4 for two patterns) + seeded random "
+                "with 2-3 set/unset field patterns (thorough: also all of length 4 for one pattern chosen by the seed) + seeded random "
                 "histories over 14 prefixes with all 128 patterns; at the end of every history (after every operation "
-                "for a quarter of them) MatchStorageRule is recorded for %d probe paths over the names a, b, ab to "
-                "depth 3 (plus trailing-slash and non-rooted paths); non-trivial = at least two rules or a rule and a "
+                "for one in eight) MatchStorageRule is recorded for %d probe paths over the names a, b, ab to "
+                "depth 2-3 (plus trailing-slash and non-rooted paths); non-trivial = at least two rules or a rule and a "
                 "delete; distinct by hash of the recorded execution" % len(probe))
     ctx.exhaustive = True
     ctx.assumptions += ["location prefixes and paths are non-empty ASCII strings (the empty location prefix is not generated)",
